@@ -20,7 +20,17 @@
                                   one element; no text element is empty or contains '{' '}'; a line feed occurs in
                                   a text element only as its last byte; a final text element does not end in space,
                                   CR or LF; the expression of a placeable is not a term attribute; every select
-                                  has exactly one default variant and a selector of an admissible kind
+                                  has exactly one default variant and a selector of an admissible kind;
+                                  the value of every named argument is a string literal or a number literal
+                                  (since the repair of D32; shape_named), and the names of the named
+                                  arguments of a call are pairwise distinct
+     C04_parser_output_identifiers   every identifier of a parser output (of messages, terms, attributes, references,
+                                  attribute accessors, identifier keys, named arguments) is a well-formed
+                                  identifier, every callee satisfies is_callee, and every number literal (as an
+                                  expression, as a variant key) is a well-formed number: an optional '-', digits,
+                                  optionally '.' and digits, and every string literal a well-formed quoted text
+                                  (no '"', no line feed, a backslash only in \\ \" \{ \uXXXX \UXXXXXX)
+                                  (Syntax/ParserLex.v)
      C04_parser_output_utf8       if the input is a Rust str (utf8_valid bs), every string of the tree the parser returns
                                   is valid UTF-8 (Syntax/ParserUtf8.v: every string is a slice of the source between
                                   character boundaries, a final text element trimmed of ASCII white space)
@@ -38,7 +48,13 @@
                                   the remaining gap of C04 is explicit: parser outputs whose joined tree is not
                                   well-formed in the sense of Render.v -- Junk, a zero-line comment (D7), a blank
                                   line inside a pattern that keeps spaces beyond the common indentation
-                                  (C04_example_spaces_on_blank_line), a lone CR in text, the leading spaces of D30
+                                  (C04_example_spaces_on_blank_line), a lone CR in text, the leading spaces of D30.
+                                  COVERED since Render.wf_value has the block-form rule (wf_pattern_lines_top): a
+                                  value (of a message, a term, an attribute or a VARIANT) all of whose
+                                  continuation lines are indented deeper than its first line
+                                  (C04_example_block_only_value, C04_example_block_only_variants; sources in
+                                  block form), and a value whose FIRST line is indented deeper than a later line
+                                  (C04_example_first_line_indented: reference fixture multiline_values.ftl, key10)
    PROVED FOR THE PARSE OF EVERY LAYOUT OF EVERY WELL-FORMED TREE but the shape of D7, both serializer options:
      C04_roundtrip_wellformed_sources_partial   for every tree tj with Render.wf_resource tj, WfUtf8.wf_utf8_resource tj
                                   and RoundTrip.last_comment_ok tj (finding D7: if the LAST entry is a stand-alone
@@ -109,11 +125,13 @@
        (one text element per line; a blank line inside the value is the text element "LF"; the indentation of
        a line beyond the common one is part of its text element, or a text element of its own in front of a
        placeable), and
-     - the elements joined (adjacent text elements concatenated) form a pattern of RoundTripML.ml_pattern eoks
+     - the elements joined (adjacent text elements concatenated) form a pattern of RoundTripML.wl_pattern eoks
        (placeables hold a simple inline expression: a reference without call arguments or a literal; call
        arguments, select expressions and nested placeables are in ssel_resource above)
        (see Props/C02.v: lines free of '{' '}' CR, continuation lines not starting with . [ *, blank lines
-       inside empty, common indentation 0, no leading/trailing space or line break).
+       inside empty, no leading/trailing space or line break; common indentation 0, or all continuation lines
+       indented and a first byte that may start a block line -- the serializer writes a value with several
+       lines in block form whenever its first byte allows it).
    PROVED FOR THE SUB-FRAGMENT simple_resource (Syntax/RoundTrip.v: stand-alone comments of all three levels;
    messages and terms with or without attached comment whose value and attribute values are one-line patterns
    made of text and placeables with a reference (no call arguments) or a literal; messages with attributes
@@ -137,7 +155,7 @@ From FluentV Require Import Syntax.ParserModel Syntax.SerializerModel Syntax.Ser
 From FluentV Require Import Syntax.Render Syntax.RoundTrip Syntax.SerializerRoundTrip.
 From FluentV Require Import Syntax.EntryLoop Syntax.RoundTripML Syntax.RoundTripSel Syntax.SerializerML Syntax.SerializerSel.
 From FluentV Require Import Syntax.WfUtf8 Syntax.RoundTripNest Syntax.WfComplete Syntax.SerializerNest.
-From FluentV Require Import Syntax.ParserShape Syntax.ParserUtf8 Syntax.ParserBridge Syntax.Coverage.
+From FluentV Require Import Syntax.ParserShape Syntax.ParserLex Syntax.ParserUtf8 Syntax.ParserBridge Syntax.Coverage.
 
 (* ---- "serialising ... yields" : the serializer returns for every tree ---- *)
 Theorem C04_serialize_total :
@@ -365,6 +383,9 @@ Proof.
   rewrite Es in Hs. injection Hs as <-.
   exists t2, []. rewrite (g_no_junk (snest_pok d) t wj Hd). repeat split; assumption.
 Qed.
+
+Theorem C04_parser_output_identifiers : forall bs t errs, parse bs = Done (t, errs) -> Forall lex_entry t.
+Proof. exact parse_lex. Qed.
 
 Theorem C04_parser_output_utf8 :
   forall bs t errs, utf8_valid bs = true -> parse bs = Done (t, errs) -> wf_utf8_resource t = true.
@@ -630,6 +651,34 @@ Example C04_example_nested_in_fragment :
   exists t, parse src = Done (t, []) /\ snest_resource 3 t = true /\
             serialize_with_options true t =
             Done (b "m = { F(G($x), -t.a, {$n ->" ++ LF ++ b "       *[k] v" ++ LF ++ b "    }, z: 1) }" ++ LF).
+Proof. eexists. conj_compute. Qed.
+
+(* a block-form source whose continuation lines are all indented deeper than the first line of the value: its tree
+   is covered (c04_covered), it is in the fragment, and the serializer writes it in block form again *)
+Example C04_example_block_only_value :
+  let src := b "a =" ++ LF ++ b "    { m }" ++ LF ++ b "      x" ++ LF ++ b "  .t =" ++ LF ++ b "   one" ++ LF ++ b "    two" ++ LF in
+  exists t, parse src = Done (t, []) /\ c04_covered t = true /\ snest_resource 1 t = true /\
+            serialize_with_options true t =
+            Done (b "a =" ++ LF ++ b "    { m }" ++ LF ++ b "      x" ++ LF ++ b "    .t =" ++ LF ++ b "        one" ++ LF ++ b "         two" ++ LF).
+Proof. eexists. conj_compute. Qed.
+
+Example C04_example_first_line_indented :
+  let src := b "key10 =" ++ LF ++ b "      two" ++ LF ++ b "    zero" ++ LF ++ b "        four" ++ LF ++
+             b "key13 =" ++ LF ++ b "    four" ++ LF ++ b "{"".""}" ++ LF in
+  exists t, parse src = Done (t, []) /\ c04_covered t = true /\ snest_resource 0 t = true /\
+            serialize_with_options true t =
+            Done (b "key10 =" ++ LF ++ b "      two" ++ LF ++ b "    zero" ++ LF ++ b "        four" ++ LF ++
+                  b "key13 =" ++ LF ++ b "        four" ++ LF ++ b "    { ""."" }" ++ LF).
+Proof. eexists. conj_compute. Qed.
+
+Example C04_example_block_only_variants :
+  let src := b "a = { $n ->" ++ LF ++ b "   [one]" ++ LF ++ b "      first" ++ LF ++ b "        second" ++ LF ++
+             b "  *[x]" ++ LF ++ b "      {$n}" ++ LF ++ b "       y" ++ LF ++ b " }" ++ LF in
+  exists t, parse src = Done (t, []) /\ c04_covered t = true /\ snest_resource 1 t = true /\
+            serialize_with_options true t =
+            Done (b "a =" ++ LF ++ b "    { $n ->" ++ LF ++ b "        [one]" ++ LF ++ b "            first" ++ LF ++
+                  b "              second" ++ LF ++ b "       *[x]" ++ LF ++ b "            { $n }" ++ LF ++ b "             y" ++ LF ++
+                  b "    }" ++ LF).
 Proof. eexists. conj_compute. Qed.
 
 (* an error-free source whose tree is OUTSIDE the premise of C04_roundtrip_parser_outputs_partial: a blank line inside
